@@ -267,12 +267,27 @@ PROPS = {
         "assumptions": EVAL_ASSUME,
     },
     "C05": {
-        "proof_modules": ["GrolProofs.Props.C05"],
-        "theorems": ["Grol.Reg.C05.loop_balanced", "Grol.Reg.C05.nested_loops_balanced", "Grol.Reg.C05.sequence_balanced"],
-        "suites": [["eval", "C05"]],
-        "rule": EVAL_RULE + " C05 statement: per input, output/value/error/panic are identical with registers on and off (both cache settings).",
-        "trusted_base": EVAL_TB + ["register file model lean/Grol/Registers.lean (MakeRegister/ReleaseRegister/HasRegisters and the post-fix protocol of evalForInteger); "
-                                   "the rewriting of bodies (ModifyRegister) is not modelled"],
+        "proof_modules": ["GrolProofs.Props.C05", "GrolProofs.RegRewrite", "GrolProofs.RegSim"],
+        "theorems": ["Grol.Reg.C05.loop_balanced", "Grol.Reg.C05.nested_loops_balanced", "Grol.Reg.C05.sequence_balanced",
+                     "Grol.RegRewrite.modifyR_spec", "Grol.RegRewrite.C05.rewrite_shape", "Grol.RegRewrite.C05.rewrite_shape_nested",
+                     "Grol.RegRewrite.C05.rewrite_refuses", "Grol.RegRewrite.C05.useRegister_spec",
+                     "Grol.RegRewrite.C05.read_sim", "Grol.RegRewrite.sim_arith", "Grol.RegRewrite.C05.simulation_partial",
+                     "Grol.Generated.RegFacts.C05.loop_eligibility_pinned", "Grol.Generated.RegFacts.C05.param_eligibility_pinned",
+                     "Grol.RegRewrite.C05.registerEligible_is_the_pinned_test"],
+        "generated": True,
+        "suites": [["eval", "C05"], "regrewrite"],
+        "rule": EVAL_RULE + " C05 statement: per input, output/value/error/panic are identical with registers on and off (both cache settings)."
+                " regrewrite: a case is (registers enabled?, registers in use, candidate names with integer/non-integer values, body); the REAL extendFunctionEnv is called on a"
+                " function with these parameters and this body; per candidate whether it got a register and which, and the body returned (with its register nodes), equal the"
+                " model's (modifyR/useRegisters); statement: they equal the SPECIFICATION (refuses/substAll/registerEligible) and erasing the registers gives back the body;"
+                " nontrivial = some candidate was eligible.",
+        "trusted_base": EVAL_TB + ["register file model lean/Grol/Registers.lean (MakeRegister/ReleaseRegister/HasRegisters and the post-fix protocol of evalForInteger)",
+                                   "rewrite model lean/Grol/Eval/RegRewrite.lean (ModifyRegister over ast.Modify, setupRegister, the eligibility test): the parameter site is tied by the "
+                                   "regrewrite suite, which drives the real extendFunctionEnv through the hook eval.VerifSetupRegisters; the LOOP site (evalForInteger) is tied by the "
+                                   "source text of its `useReg := …` expression, regenerated on every run (lean/Grol/Generated/RegFacts.lean, harness/cmd/harness/extract_regfacts.go) "
+                                   "and pinned by theorem (reading that text as the model's registerEligible is by inspection), plus the eval suite (registers on vs off on every generated loop)",
+                                   "the register-aware evaluation (a register read yields the integer it holds) is a definition of GrolProofs/RegSim.lean, tied to the code only "
+                                   "through the eval suite (registers on vs the register-free model)"],
         "assumptions": EVAL_ASSUME,
     },
     "C07": {
